@@ -30,6 +30,17 @@ class LemmaCtx(object):
         self.record(name, st, be, dt, detail='' if st == 'proved' else str(goal)[:1500], witness=w)
         return st == 'proved'
 
+    def expect_unprovable(self, name, goal, assumptions=(), timeout_ms=3000):
+        """Vacuity / engine canary: a false variant of a lemma must NOT be provable from the same assumptions
+        (inconsistent axioms or a prover that proves everything would pass it).  A provable canary is a checker error."""
+        from .verify import smt_check
+        st, model, dt, be = smt_check(list(assumptions), goal, timeout_ms)
+        self.solver_s += dt
+        if st == 'proved':
+            raise RuntimeError('vacuity canary %r was provable: the lemma\'s assumptions are inconsistent' % name)
+        self.record(name, 'proved', 'canary(%s:%s)' % (be, st), dt)
+        return True
+
     def check(self, name, ok, detail='', backend='syntactic', witness=None):
         """A decided (non-SMT) obligation, e.g. a syntactic property of the AST or a sympy identity."""
         self.record(name, 'proved' if ok else 'refuted', backend, 0.0, detail if not ok else '', witness)
